@@ -206,7 +206,8 @@ namespace c11
       const int ecls = std::min(vcls, 2);
       if(t.flag(1, 2)) { ox = gen_real(t, ecls); oy = gen_real(t, ecls); }
       if(t.flag(1, 2)) { fx = gen_real(t, ecls); fy = gen_real(t, ecls); fz = gen_real(t, ecls); }
-      if(t.flag(1, 2)) { ay = rev(); ap = rev() / 2.0; ar = rev(); }   // pitch in [-1/4, 1/4] revolutions (range of the yaw-pitch-roll representation)
+      if(t.flag(1, 2)) { ay = rev(); ap = rev() / 2.0; ar = rev();    // pitch in [-1/4, 1/4] revolutions (range of the yaw-pitch-roll representation)
+        const int gl = t.pick({4, 1, 1}); if(gl == 1) ap = 0.25; else if(gl == 2) ap = -0.25; }   // gimbal lock: pitch exactly +-90 degrees (own branches of the writer's angle reconstruction)
       const double tp = 2.0 * Math::pi<double>();
       J ang = J::arr(); ang.add(ay); ang.add(ap); ang.add(ar); d.set("angles_rev", ang);
       if(k == 2)
